@@ -1030,6 +1030,7 @@ func (s *Service) runWith(wid string, cb func()) {
 		s.mu.Unlock()
 		verifhook.Gate("runwith-before-signal")
 		s.workcond.Signal()
+		verifhook.Note("signalled", wid, 0)
 	} else {
 		// Append callback to existing work queue
 		w.queue = append(w.queue, cb)
